@@ -214,3 +214,143 @@ Proof.
   vm_compute in Ht. discriminate.
 Qed.
 Print Assumptions C12_operators_total_refuted.
+
+(* ---- the tie to the source, re-checked by the kernel on every run -------------------------------------
+   Gen/DeriveSrc.v is re-generated from typedpy/structures/structures_reuse.py and structures.py
+   (harness/genmods/py2v_derive.py): the class-dict construction of Partial / AllFieldsRequired / Omit / Pick /
+   Extend, Structure.omit / pick, _init_class_dict.  For EVERY source class description (seen as a class object
+   in the heap, with arbitrary other __dict__ entries) and argument list, the type(name, bases, dict) request
+   the source builds NOW decodes to the class statement of the hand-written model Struct/Derive.v. *)
+From TP Require Import Base.PyOps Base.PyOps2 Base.PyObj Base.PyOpsDerive Gen.DeriveSrc Struct.DeriveSrcView Struct.DeriveSrcProofs.
+
+Theorem C12_src_partial :
+  forall (k : klass) (pre post : list (pystr * pyval)),
+         others_ok pre = true ->
+         others_ok post = true ->
+         src_ok k = true ->
+         forall cname : option pystr,
+         x <- PartialMeta_getitem (klass_heap k pre post) (op_class OpPartial) (class_arg cname);;
+         decode_newclass k x = derive_stmt k OpPartial cname.
+Proof. exact Partial_src_is_model. Qed.
+
+Theorem C12_src_extend :
+  forall (k : klass) (pre post : list (pystr * pyval)),
+         others_ok pre = true ->
+         others_ok post = true ->
+         src_ok k = true ->
+         forall cname : option pystr,
+         x <- ExtendMeta_getitem (klass_heap k pre post) (op_class OpExtend) (class_arg cname);;
+         decode_newclass k x = derive_stmt k OpExtend cname.
+Proof. exact Extend_src_is_model. Qed.
+
+Theorem C12_src_allrequired :
+  forall (k : klass) (pre post : list (pystr * pyval)),
+         others_ok pre = true ->
+         others_ok post = true ->
+         src_ok k = true ->
+         defaults_normal k = true ->
+         forall cname : option pystr,
+         x <-
+         AllFieldsRequiredMeta_getitem (klass_heap k pre post) (op_class OpAllRequired)
+           (class_arg cname);; decode_newclass k x = derive_stmt k OpAllRequired cname.
+Proof. exact AllFieldsRequired_src_is_model. Qed.
+
+Theorem C12_src_omit :
+  forall (k : klass) (pre post : list (pystr * pyval)),
+         others_ok pre = true ->
+         others_ok post = true ->
+         src_ok k = true ->
+         forall (b : bool) (ns : list pystr) (cname : option pystr),
+         name_given cname = true ->
+         x <- OmitMeta_getitem (klass_heap k pre post) (op_class (OpOmit ns)) (sel_arg b ns cname);;
+         decode_newclass k x = derive_stmt k (OpOmit ns) cname.
+Proof. exact Omit_src_is_model. Qed.
+
+Theorem C12_src_pick :
+  forall (k : klass) (pre post : list (pystr * pyval)),
+         others_ok pre = true ->
+         others_ok post = true ->
+         src_ok k = true ->
+         forall (b : bool) (ns : list pystr) (cname : option pystr),
+         name_given cname = true ->
+         x <- PickMeta_getitem (klass_heap k pre post) (op_class (OpPick ns)) (sel_arg b ns cname);;
+         decode_newclass k x = derive_stmt k (OpPick ns) cname.
+Proof. exact Pick_src_is_model. Qed.
+
+Theorem C12_src_structure_omit :
+  forall (k : klass) (pre post : list (pystr * pyval)),
+         others_ok pre = true ->
+         others_ok post = true ->
+         src_ok k = true ->
+         forall (ns : list pystr) (cname : option pystr),
+         name_given cname = true ->
+         x <-
+         Structure_omit (klass_heap k pre post) (ref o_clazz) (PTuple (map PStr ns))
+           (class_name_kw cname);; decode_newclass k x = derive_stmt k (OpOmit ns) cname.
+Proof. exact Structure_omit_src_is_model. Qed.
+
+Theorem C12_src_structure_pick :
+  forall (k : klass) (pre post : list (pystr * pyval)),
+         others_ok pre = true ->
+         others_ok post = true ->
+         src_ok k = true ->
+         forall (ns : list pystr) (cname : option pystr),
+         name_given cname = true ->
+         x <-
+         Structure_pick (klass_heap k pre post) (ref o_clazz) (PTuple (map PStr ns))
+           (class_name_kw cname);; decode_newclass k x = derive_stmt k (OpPick ns) cname.
+Proof. exact Structure_pick_src_is_model. Qed.
+
+(* all five operators in one statement *)
+Theorem C12_src_operators :
+  forall (k : klass) (pre post : list (pystr * pyval)) (o : op) (as_list : bool)
+           (cname : option pystr),
+         others_ok pre = true ->
+         others_ok post = true ->
+         src_ok k = true ->
+         op_ok k o cname = true ->
+         x <- run_operator (klass_heap k pre post) o as_list cname;; decode_newclass k x =
+         derive_stmt k o cname.
+Proof. exact operators_src_is_model. Qed.
+
+(* the model's derive = the source's operator, decoded, followed by the ordinary class definition *)
+Theorem C12_src_derive_factors :
+  forall (re_match : N -> pystr -> bool) (e : env) (gd : guards) (g : genv) 
+           (k : klass) (pre post : list (pystr * pyval)) (o : op) (as_list : bool)
+           (cname : option pystr),
+         others_ok pre = true ->
+         others_ok post = true ->
+         src_ok k = true ->
+         op_ok k o cname = true ->
+         derive re_match e gd g k o cname =
+         x <- run_operator (klass_heap k pre post) o as_list cname;;
+         s <- decode_newclass k x;; define re_match e gd g s.
+Proof. exact derive_is_source_then_define. Qed.
+
+(* a source that is not a Structure class: TypeError from every operator *)
+Theorem C12_src_not_structure :
+  forall (k : klass) (pre post : list (pystr * pyval)),
+         k_is_struct k = false ->
+         forall (b : bool) (ns : list pystr) (cname : option pystr),
+         PartialMeta_getitem (klass_heap k pre post) (op_class OpPartial) (class_arg cname) =
+         Raise TypeError /\
+         AllFieldsRequiredMeta_getitem (klass_heap k pre post) (op_class OpAllRequired)
+           (class_arg cname) = Raise TypeError /\
+         ExtendMeta_getitem (klass_heap k pre post) (op_class OpExtend) (class_arg cname) =
+         Raise TypeError /\
+         OmitMeta_getitem (klass_heap k pre post) (op_class (OpOmit ns)) (sel_arg b ns cname) =
+         Raise TypeError /\
+         PickMeta_getitem (klass_heap k pre post) (op_class (OpPick ns)) (sel_arg b ns cname) =
+         Raise TypeError.
+Proof. exact operators_src_not_structure. Qed.
+
+Print Assumptions C12_src_partial.
+Print Assumptions C12_src_extend.
+Print Assumptions C12_src_allrequired.
+Print Assumptions C12_src_omit.
+Print Assumptions C12_src_pick.
+Print Assumptions C12_src_structure_omit.
+Print Assumptions C12_src_structure_pick.
+Print Assumptions C12_src_operators.
+Print Assumptions C12_src_derive_factors.
+Print Assumptions C12_src_not_structure.
